@@ -15,6 +15,8 @@ STRUCTS = [
     # a twin of Item: same attributes, another name (literals with identical JSON text under
     # two type names; used in service inputs only, which have no signature)
     {"name": "Piece", "attrs": [("v", NUM)]},
+    # a flat struct (no nested struct) with an array of numbers; service inputs only
+    {"name": "Palette", "attrs": [("rgb", ("array", "number", None)), ("tone", NUM)]},
 ]
 
 # every variable is answered with a value that has the attributes of all structs, so a
@@ -237,8 +239,15 @@ class Gen:
             a = self.arg_for(r.choice(["Data", "Inner", "Item", "number"]), vars_, loopvars)
             if a is not None:
                 if a[0] == "lit" and a[1] == "Item":
-                    # few distinct values, and half of them under the twin's name
-                    a = ("lit", r.choice(["Item", "Piece"]), ("obj", [("v", ("num", r.choice(DYADIC[:3])))]))
+                    # few distinct values, and half of them under the twin's name; sometimes the flat
+                    # struct with an array instead
+                    k = r.choice(["Item", "Piece", "Item", "Piece", "Palette"])
+                    if k == "Palette":
+                        a = ("lit", "Palette", ("obj", [("rgb", ("arr", [("num", Fraction(255)), ("num", r.choice(DYADIC[:3])),
+                                                                        ("num", Fraction(20))])),
+                                                       ("tone", ("num", r.choice(DYADIC[:3])))]))
+                    else:
+                        a = ("lit", k, ("obj", [("v", ("num", r.choice(DYADIC[:3])))]))
                 out.append(a)
         return out
 
